@@ -149,11 +149,22 @@ func c15Exchange(r *Run) {
 	pipeline := 1 + T.Draw("pipeline", 4)
 	big := T.Bool("bigframes", 0.25)
 	compressible := T.Bool("compressible", 0.5)
+	// burst: every request is handed to Send before any response is awaited, so several (possibly
+	// large) envelopes sit in the outgoing queue at the same moment
+	burst := T.Bool("burst", 0.25)
+	if burst {
+		pipeline = nReq
+	}
 	r.Config["requests"] = fmt.Sprint(nReq)
 	r.Config["pipeline"] = fmt.Sprint(pipeline)
+	r.Config["burst"] = fmt.Sprint(burst)
 	maxBytes := 2000
+	bigChance := 0.3
 	if big {
 		maxBytes = 120000 // the client does not split envelopes: stay below the v5 segment payload limit
+		if burst {
+			bigChance = 0.8
+		}
 	}
 	var creds *client.AuthCredentials
 	if e.auth {
@@ -164,7 +175,7 @@ func c15Exchange(r *Run) {
 	reqs := make([]*frame.Frame, nReq)
 	resps := make([]*frame.Frame, nReq)
 	for i := range reqs {
-		reqs[i] = GenFrame(T, GenOpts{Version: e.v, Requests: true, NoStartup: true, MaxBytes: maxBytes, BigChance: 0.3, Compressible: compressible, HeaderFlags: true, AllowTracingOnRequests: true}, client.ManagedStreamId)
+		reqs[i] = GenFrame(T, GenOpts{Version: e.v, Requests: true, NoStartup: true, MaxBytes: maxBytes, BigChance: bigChance, Compressible: compressible, HeaderFlags: true, AllowTracingOnRequests: true}, client.ManagedStreamId)
 		resps[i] = GenFrame(T, GenOpts{Version: e.v, Responses: true, NoEvents: true, MaxBytes: maxBytes, BigChance: 0.3, Compressible: compressible, HeaderFlags: true}, 0)
 		if e.comp != primitive.CompressionNone && T.Bool("compressflag", 0.6) {
 			reqs[i].SetCompress(true)
